@@ -402,12 +402,18 @@ Definition dres_eqb (a b : dres) : bool :=
   match a, b with DMsg w m, DMsg w' m' => Nat.eqb w w' && msg_eqb m m' | DMore, DMore => true | DPanic, DPanic => true | _, _ => false end.
 (* unified case: (is_stream, events, chunks, cancel, real msgs, real stop) *)
 Definition ucase := (bool * list event * list bytes * option nat * list msg * stop)%type.
-Definition script_of (c : list bytes) : list chunk := map Chunk c ++ [ReadErr].
+Definition is_mark (b : bytes) : bool := match b with [999] => true | _ => false end.
+Fixpoint script_of (c : list bytes) : list chunk :=
+  match c with
+  | [] => [ReadErr]
+  | [b; m] => if is_mark m then [ChunkErr b] else [Chunk b; Chunk m; ReadErr]
+  | b :: t => Chunk b :: script_of t
+  end.
 Definition model_read_ok (c : ucase) : bool :=
   let '(_, _, chunks, cancel, real, why) := c in
   let r := reader (script_of chunks) cancel in
   msgs_eqb (map fst (rd_out r)) real && stop_eqb (rd_why r) why.
-Definition enc_ok (c : ucase) : bool := let '(st, evs, chunks, _, _, _) := c in negb st || bytes_eqb (encode_all evs) (concat chunks).
+Definition enc_ok (c : ucase) : bool := let '(st, evs, chunks, _, _, _) := c in negb st || bytes_eqb (encode_all evs) (concat (filter (fun b => negb (is_mark b)) chunks)).
 Definition wf_ok (c : ucase) : bool := let '(st, evs, _, _, _, _) := c in st && wf_stream evs.
 Definition spec_ok (c : ucase) : bool :=
   let '(_, evs, _, _, real, _) := c in msgs_eqb (map msg_proj real) (map (fun e => msg_proj (expect e)) evs).
@@ -538,11 +544,13 @@ def run_family(res, prop, prop_mod, cases, dcases=None, spec_on_streams=True, ru
         raise C.Fail("harness build failed (does /repo still compile with -tags verif?):\n" + out[-3000:])
     cases = load_corpus(prop) + cases
     dcases = dcases or []
-    inputs = [{"op": "read", "chunks": c["chunks"], "err": c["err"], "cancel": c["cancel"], "greedy": bool(c.get("greedy"))} for c in cases]
+    inputs = [{"op": "read", "chunks": c["chunks"], "err": c["err"], "cancel": c["cancel"], "greedy": bool(c.get("greedy")),
+               "err_with_last": bool(c.get("err_with_last"))} for c in cases]
     inputs += [{"op": "detect", "b": d["b"], "more": d["more"]} for d in dcases]
     outs = run_real(prop, inputs)
     routs, douts = outs[:len(cases)], outs[len(cases):]
-    ucs = [coq_ucase(c["evs"], c["chunks"], c["cancel"], o) for c, o in zip(cases, routs)]
+    # (a script whose last read returns its bytes together with the error is marked by an impossible chunk [999] behind it)
+    ucs = [coq_ucase(c["evs"], c["chunks"] + ([[999]] if c.get("err_with_last") else []), c["cancel"], o) for c, o in zip(cases, routs)]
     dcs = [coq_dcase(d["b"], d["more"], o) for d, o in zip(dcases, douts)]
     ev = evaluate(prop, ucases=ucs, dcases=dcs)
     if ev["enc"]:
@@ -550,7 +558,7 @@ def run_family(res, prop, prop_mod, cases, dcases=None, spec_on_streams=True, ru
         raise C.Fail("generator/Spec encode disagreement on case %d: %r" % (i, cases[i]["evs"]))
     # coverage
     for c in cases:
-        key = (tuple(tuple(x) for x in c["chunks"]), c["cancel"], c["err"])
+        key = (tuple(tuple(x) for x in c["chunks"]), c["cancel"], c["err"], bool(c.get("err_with_last")))
         res.count(hash(key))
     for d in dcases:
         res.count(hash((tuple(d["b"]), d["more"])))
@@ -587,7 +595,7 @@ def run_family(res, prop, prop_mod, cases, dcases=None, spec_on_streams=True, ru
             c, o = shrink_stream(prop, cases[i], routs[i])
             res.violation("%s:spec:%s" % (prop, first_diff_kind(c, o)),
                           "real decoder output differs from the specified messages for a well-formed event stream",
-                          {"events": [list(e) for e in c["evs"]], "chunks": c["chunks"], "real": o})
+                          {"events": [list(e) for e in c["evs"]], "chunks": c["chunks"], "real": o, "err_with_last": bool(c.get("err_with_last"))})
             found = True
     # a pasted KeyMsg prints as "[text]", never like a key press (that is how applications tell the two apart)
     bad_str = []
@@ -639,7 +647,8 @@ def run_family(res, prop, prop_mod, cases, dcases=None, spec_on_streams=True, ru
                not bad_acc, [(cases[i]["chunks"][:3], routs[i].get("msgs", [])[:5], routs[i].get("ref", [])[:5]) for i in bad_acc[:2]])
     for i in bad_acc[:1]:
         res.violation("%s:accounting" % prop, "the real reader lost, repeated or re-ordered input bytes: its messages differ from the adjacent-run accounting of the same reads",
-                      {"chunks": cases[i]["chunks"], "real": routs[i].get("msgs"), "accounting": routs[i].get("ref"), "widths": routs[i].get("ref_w")})
+                      {"chunks": cases[i]["chunks"], "real": routs[i].get("msgs"), "accounting": routs[i].get("ref"), "widths": routs[i].get("ref_w"),
+                       "err_with_last": bool(cases[i].get("err_with_last"))})
         found = True
     # nothing is held back after a short read (an event boundary) unless a paste is still open: when the reader has
     # stopped with the scripted error, the runs cover the whole input
@@ -698,8 +707,11 @@ def shrink_stream(prop, case, out):
     while i < len(evs) and budget > 0 and len(evs) > 1:
         cand = evs[:i] + evs[i + 1:]
         c2 = stream_case(cand, sizes=[len(ch) for ch in case["chunks"]] if len(case["chunks"]) > 1 else None)
-        o2 = run_real(prop + "_shrink", [{"op": "read", "chunks": c2["chunks"], "err": "eof", "cancel": -1}])[0]
-        ev = evaluate(prop + "_shrink", ucases=[coq_ucase(c2["evs"], c2["chunks"], -1, o2)])
+        ewl = bool(case.get("err_with_last"))
+        if ewl:
+            c2["err_with_last"] = True
+        o2 = run_real(prop + "_shrink", [{"op": "read", "chunks": c2["chunks"], "err": "eof", "cancel": -1, "err_with_last": ewl}])[0]
+        ev = evaluate(prop + "_shrink", ucases=[coq_ucase(c2["evs"], c2["chunks"] + ([[999]] if ewl else []), -1, o2)])
         budget -= 1
         if ev["spec"] and not ev["enc"]:
             evs = cand
@@ -716,14 +728,14 @@ def replay_family(res, prop, prop_mod, path, **kw):
     inp = d.get("input")
     if d.get("chunks") is not None:
         evs = [tuple(e) for e in d["events"]] if d.get("events") else None
-        cases.append({"evs": evs, "chunks": d["chunks"], "err": "eof", "cancel": -1, "tag": "replay"})
+        cases.append({"evs": evs, "chunks": d["chunks"], "err": "eof", "cancel": -1, "tag": "replay", "err_with_last": bool(d.get("err_with_last"))})
     elif inp and inp.get("op") == "read":
-        cases.append({"evs": None, "chunks": inp["chunks"], "err": inp.get("err", "eof"), "cancel": inp.get("cancel", -1), "tag": "replay"})
+        cases.append({"evs": None, "chunks": inp["chunks"], "err": inp.get("err", "eof"), "cancel": inp.get("cancel", -1), "tag": "replay", "err_with_last": bool(inp.get("err_with_last"))})
     elif inp and inp.get("op") == "detect":
         dcases.append({"b": inp["b"], "more": inp.get("more", False), "tag": "replay"})
     for m in d.get("mismatching_inputs", []):
         if m.get("op") == "read":
-            cases.append({"evs": None, "chunks": m["chunks"], "err": m.get("err", "eof"), "cancel": m.get("cancel", -1), "tag": "replay"})
+            cases.append({"evs": None, "chunks": m["chunks"], "err": m.get("err", "eof"), "cancel": m.get("cancel", -1), "tag": "replay", "err_with_last": bool(m.get("err_with_last"))})
         elif m.get("op") == "detect":
             dcases.append({"b": m["b"], "more": m.get("more", False), "tag": "replay"})
     if not cases and not dcases:
